@@ -7,5 +7,6 @@ python3 tools/t1_scratch.py
 [ -f tools/t4_scan.py ] && python3 tools/t4_scan.py || true
 [ -f tools/t5_surface.py ] && python3 tools/t5_surface.py || true
 (cd lean && lake build rfvmodel && lake build RFV)
-(cd harness && cargo build --release --offline)
+(cd harness && cargo build --release --offline && cargo build --release --offline --no-default-features --target-dir /verif/.build/cargo-none)
+(cd witness && cargo build --offline)
 echo "setup ok"
